@@ -60,6 +60,7 @@ pub open spec fn batch_ok(items: Seq<Value>) -> bool {
 }
 
 //@extract fn bigtools/src/bbi/bigwigwrite.rs encode_section
+//@rule R16
 //@rule R1
 //@rule R3 min=11
 //@rule R7 min=1
